@@ -12,10 +12,12 @@ from __future__ import annotations
 
 from ..facts import AnalysisError
 from ..terms import const, contains, show, strip_sites
-from ..util import NoInline, P, calls_to, engine, loc, param_at
+from ..util import NoInline, P, calls_to, engine, implied_atoms, loc, param_at
 from .ordering import (arming, cancel_on_removal, every_removal_reported, PROTO, TS, Ctx, atomic_notifications, expiry_once, reboot_before_entries, reject_before_record)
 
 DISC = "sd.ServiceDiscover"
+ME = ("self", DISC)
+STORE = ("attr", ("attr", ME, "found_services"), "store")
 OFFERED = "sd.ClientServiceListener.service_offered"
 STOPPED = "sd.ClientServiceListener.service_stopped"
 
@@ -133,6 +135,9 @@ def check(run, prog, tier):
                "relates filter and found service with Service.matches_service" if ok else
                f"uses {[e.targets[0].name for e in preds] or 'no matching predicate'}; the notify / catch-up / found paths must agree on matches_service")
 
+    # ------------------------------------------------------------------ F2 fan-out completeness and arguments
+    fanout(run, prog, cx, n_off, n_stp)
+
     # ------------------------------------------------------------------ R1 reachability
     cl = cx.m(DISC, "connection_lost")
     effs = cx.effects(cl.qual, DISC)
@@ -167,3 +172,112 @@ def check(run, prog, tier):
                 svc_ok = any(x[0] == "call" and x[1][0] == "bound" and x[1][2].endswith("from_offer_entry") for x in a)
                 okc = addr in a and svc_ok
         run.ob("R1", f"{fi.qual}:keyed-by-source-and-service", okc, loc(fi), f"found_services.{callee}() is keyed by (source address, Service.from_offer_entry(entry))")
+
+
+def _unwrap(tm):
+    """look through snapshot / conversion wrappers: list(x), tuple(x), set(x), frozenset(x), sorted(x), iter(x)"""
+    while tm[0] == "call" and tm[1][0] == "ext" and tm[1][1] in ("list", "tuple", "set", "frozenset", "sorted", "iter", "reversed") \
+            and len(tm[2]) == 1:
+        tm = tm[2][0]
+    return tm
+
+
+def _elem_of(tm):
+    return _unwrap(tm[1]) if tm[0] == "elem" else None
+
+
+def _pair_from_store(a_service, a_addr):
+    """is (a_service, a_addr) one found service together with the address it is stored under?
+    True / False / None (derived from the store in a shape this rule does not know)"""
+    s0, a0 = strip_sites(a_service), strip_sites(a_addr)
+    store = strip_sites(STORE)
+    # for addr, services in store.items(): for s in services
+    if a0[0] == "item" and a0[2] == const(0) and a0[1][0] == "elem":
+        it = _unwrap(a0[1][1])
+        if it[0] == "call" and it[1] == ("attr", store, "items"):
+            inner = _elem_of(s0)
+            return inner == ("item", a0[1], const(1))
+    # for addr in store [.keys()]: for s in store[addr]
+    it = _elem_of(a0)
+    if it is not None and (it == store or (it[0] == "call" and it[1] == ("attr", store, "keys"))):
+        inner = _elem_of(s0)
+        return inner == ("item", store, a0)
+    if contains(a0, lambda x: x == store) and contains(s0, lambda x: x == store):
+        return None
+    return False  # one of the two does not come from the store at all
+
+
+def fanout(run, prog, cx, n_off, n_stp):
+    """every interested listener is told, about the right (service, source) pair:
+    * the store's notifier slots reach the listeners of every matching filter AND the watch-all listeners, with
+      exactly the (service, source) they were called with;
+    * the (un)watch catch-up reports each found service together with the address it is stored under."""
+    run_ = run
+    eng = engine(prog, NoInline())
+    eng.policy.unroll = 1
+    ms = cx.m("config.Service", "matches_service").qual
+    for fn, kind in ((n_off, "service_offered"), (n_stp, "service_stopped")):
+        svc, src = P(fn, param_at(fn, 0, "service")), P(fn, param_at(fn, 1, "source"))
+        paths = eng.paths(fn, recv=DISC)
+        run_.paths += len(paths)
+        full = False
+        bad_args = None
+        unmatched = None
+        for p in paths:
+            notes = [e for e in p.events if e.kind == "call" and e.attrname == kind and not e.sched]
+            matched = [c[1][1] for c, v in implied_atoms(p.conds)
+                       if v and c[0] == "call" and c[1][0] == "bound" and c[1][2] == ms and len(c[2]) == 1 and c[2][0] == svc]
+            kinds = set()
+            for e in notes:
+                if tuple(e.args) != (svc, src) or e.kwargs:
+                    bad_args = bad_args or f"listener.{kind}({', '.join(show(a)[:40] for a in e.args)})"
+                if contains(e.recv, lambda x: x == ("attr", ME, "watcher_all_services")):
+                    kinds.add("all")
+                elif contains(e.recv, lambda x: x == ("attr", ME, "watched_services")):
+                    kinds.add("filtered")
+                    # the listener set must belong to a filter that matched on this path
+                    if not any(contains(e.recv, lambda x, f=f: x == (f[1] if f[0] == "item" else f)) for f in matched):
+                        unmatched = unmatched or show(e.recv)[:80]
+                else:
+                    kinds.add("other")
+            if kinds >= {"all", "filtered"}:
+                full = True
+        q = fn.qual
+        run_.ob("F2", f"{q}:reaches-filtered-and-watch-all-listeners", full, loc(fn),
+                "a store change is reported to the listeners of every matching filter and to the watch-all listeners" if full else
+                f"no path of {fn.name} notifies both the listeners of a matching filter and the watch-all listeners: registered listeners "
+                "never hear about a live offer matching their filter")
+        run_.ob("F2", f"{q}:passes-service-and-source", bad_args is None, loc(fn),
+                "listeners are told the (service, source) pair the store reported" if bad_args is None else
+                f"{bad_args}: the notification must carry the service and the source address the store reported (histories are per service and source)")
+        run_.ob("F2", f"{q}:only-matching-filters", unmatched is None, loc(fn),
+                "listeners of a filter are notified only when the filter matches the service" if unmatched is None else
+                f"{unmatched} is notified without its filter having matched")
+    for name, kind, filtered in (("watch_service", "service_offered", True), ("stop_watch_service", "service_stopped", True),
+                                 ("watch_all_services", "service_offered", False), ("stop_watch_all_services", "service_stopped", False)):
+        fi = cx.m(DISC, name)
+        paths = eng.paths(fi, recv=DISC)
+        run_.paths += len(paths)
+        verdict = []
+        guarded = True
+        for p in paths:
+            for e in p.events:
+                if e.kind == "call" and e.attrname == kind and not e.sched and len(e.args) == 2:
+                    r = _pair_from_store(e.args[0], e.args[1])
+                    if r is None:
+                        raise AnalysisError(f"{fi.qual}: cannot relate the catch-up arguments ({show(e.args[0])[:60]}, {show(e.args[1])[:60]}) to found_services.store")
+                    verdict.append(r)
+                    if filtered:
+                        flt = P(fi, param_at(fi, 0, "service"))
+                        if not any(v and c[0] == "call" and c[1][0] == "bound" and c[1][2] == ms and c[1][1] == flt and tuple(c[2]) == (e.args[0],)
+                                   for c, v in implied_atoms(p.conds)):
+                            guarded = False
+        if not verdict:
+            continue  # reported by A3
+        run_.ob("F2", f"{fi.qual}:catch-up-reports-stored-pairs", all(verdict), loc(fi),
+                "the catch-up reports every found service together with the address it is stored under" if all(verdict) else
+                "the catch-up notification does not carry (found service, the address it is stored under)")
+        if filtered:
+            run_.ob("F2", f"{fi.qual}:catch-up-only-for-matching-services", guarded, loc(fi),
+                    "only services matching the listener's filter are reported" if guarded else
+                    "a found service is reported to the listener without its filter having matched it")
